@@ -15,6 +15,8 @@
 #include "geom.h"
 #include "gen.h"
 #include "clipper2/clipper.h"
+#include <csignal>
+#include <sys/time.h>
 #include <sys/resource.h>
 
 using namespace vf;
@@ -24,6 +26,21 @@ namespace {
 
 const int64_t kMaxCoord = (int64_t)1 << 61;   // generated inputs stay within +-2^61 (DESIGN.md 2.5)
 const int kMaxCellsPerAxis = 64;              // work bound for replayed witnesses; generated scenes have <= 8
+
+// Hang detection. A case normally takes ~30 microseconds. An Execute that burns kExecuteCpuSeconds of *CPU time* does
+// not terminate for practical purposes; CPU time (ITIMER_PROF), unlike the wall-clock watchdog of vf.h (kept as the
+// backstop, 90 s), does not advance while a shared machine stalls, so load cannot fire it. Same protocol as vf.h:
+// VF-WATCHDOG line + exit status 97; the orchestrator re-runs the case alone and reports C02.crash [watchdog_execute_cpu].
+const int kExecuteCpuSeconds = 5;
+void on_cpu_alarm(int) {
+  static const char msg[] = "VF-WATCHDOG execute_cpu Clipper64::Execute used more than 5 s of CPU time on one rectilinear case\n";
+  ssize_t r = write(2, msg, sizeof msg - 1); (void)r;
+  _exit(97);
+}
+void arm_cpu_watchdog(int seconds) {
+  struct itimerval it; memset(&it, 0, sizeof it); it.it_value.tv_sec = seconds;
+  setitimer(ITIMER_PROF, &it, nullptr);
+}
 
 // edge in doubled coordinates relative to the bounding-box corner (x0,y0): |value| <= 2^63, products <= 2^126
 struct E2 { i128 ax, ay, bx, by; };
@@ -171,7 +188,9 @@ void judge(Ctx& ctx, const Case& c, bool from_replay) {
   clipper.AddSubject(S);
   clipper.AddClip(C);
   Paths64 sol;
-  bool ok = clipper.Execute((ClipType)ct, (FillRule)fr, sol);   // a hang is caught by vf.h's per-case watchdog (--case_timeout)
+  arm_cpu_watchdog(kExecuteCpuSeconds);
+  bool ok = clipper.Execute((ClipType)ct, (FillRule)fr, sol);
+  arm_cpu_watchdog(0);
   ctx.evaluated();
 
   const std::string cfgs = "ct" + std::to_string(ct) + "_fr" + std::to_string(fr) + "_pc" + std::to_string((int)pc);
@@ -313,6 +332,7 @@ void rnd_case(Ctx& ctx, uint64_t i) {
   c.seti("ct", 1 + (cfg & 3)); c.seti("fr", (cfg >> 2) & 3); c.seti("pc", (cfg >> 4) & 1);
   c.seti("s", rs.s); c.seti("G", rs.G); c.seti("bigoff", bigoff); c.set("mode", "rnd");
   ctx.count("rnd_scenes_judged");
+  ctx.count("rnd_scenes_judged_" + ctx.cfg_name);
   ctx.count("rnd_scale_" + std::to_string(rs.s));
   ctx.count("rnd_G_" + std::to_string(rs.G));
   if (bigoff) ctx.count("rnd_big_offset_scenes");
@@ -322,6 +342,7 @@ void rnd_case(Ctx& ctx, uint64_t i) {
 } // namespace
 
 void vf_begin(Ctx&) {
+  signal(SIGPROF, on_cpu_alarm);
   struct rlimit rl; rl.rlim_cur = rl.rlim_max = (rlim_t)6 << 30;   // a runaway Execute must fail, not exhaust the machine
   setrlimit(RLIMIT_AS, &rl);
 }
